@@ -27,7 +27,7 @@ func rsGenerator(n int) []byte {
 		// g = g * (x + root); subtraction equals addition in GF(2^k).
 		next := make([]byte, len(g)+1)
 		for j := 0; j < len(g); j++ {
-			next[j] ^= g[j]                  // g[j] * x
+			next[j] ^= g[j]                // g[j] * x
 			next[j+1] ^= gfMul(g[j], root) // g[j] * root
 		}
 		g = next
